@@ -17,7 +17,7 @@ import (
 // the target would overwrite.
 
 func init() {
-	fw.Register(&fw.Check{ID: "C30", Level: "exploration", Run: runC30, QuickBudget: 90, ThoroughBudget: 1200})
+	fw.Register(&fw.Check{ID: "C30", Level: "exploration", Run: runC30, QuickBudget: 150, ThoroughBudget: 1200})
 }
 
 var (
